@@ -213,13 +213,7 @@ func (e *Engine) callFunc(fr *frame, ins ssa.Instruction, fn *ssa.Function, args
 	if e.pure {
 		res.reach = reach
 	}
-	// the callee's heap effects become the caller's
-	for k := range heap {
-		delete(heap, k)
-	}
-	for k, v := range res.heap {
-		heap[k] = v
-	}
+	// the heap is shared: the callee's (guarded) stores are already in it
 	return res.ret, res.reach
 }
 
@@ -307,7 +301,9 @@ func (e *Engine) havocAssigns(c *Contract, fn *ssa.Function, args []Val, heap He
 			for _, k := range e.compOrder {
 				if componentMatches(k, item) {
 					cp := e.comps[k]
-					heap[k] = e.sc.declare("Hhavoc_"+k, cp.sort)
+					fresh := e.sc.declare("Hhavoc_"+k, cp.sort)
+					heap[k] = e.sc.define("Hh_"+k, cp.sort, ite(e.guard, fresh, e.heapGet(heap, cp)))
+					e.dirty[k] = true
 					matched = true
 				}
 			}
@@ -335,6 +331,8 @@ func (e *Engine) evalPred(pf *ssa.Function, args []Val, heap Heap, old Heap) str
 	savePure := e.pure
 	e.pure = true
 	saveOld := e.oldHeap
+	saveGuard := e.guard
+	e.guard = "true"
 	if old != nil {
 		e.oldHeap = old
 	}
@@ -342,6 +340,7 @@ func (e *Engine) evalPred(pf *ssa.Function, args []Val, heap Heap, old Heap) str
 	res := e.execFunction(pf, args, nil, "true", h)
 	e.pure = savePure
 	e.oldHeap = saveOld
+	e.guard = saveGuard
 	return e.scalar(res.ret).T
 }
 
@@ -547,7 +546,9 @@ func (e *Engine) builtin(fr *frame, ins ssa.Instruction, b *ssa.Builtin, cc *ssa
 		case Sc:
 			t := cc.Args[0].Type()
 			if isStringT(t) {
-				return Sc{app("gs_len", x.T), SI64}
+				l := e.sc.define("slen", SI64, app("gs_len", x.T))
+				e.sc.assume(app("bvsge", l, bvLit(0, 64)))
+				return Sc{l, SI64}
 			}
 			if mt, ok := under(t).(*types.Map); ok {
 				_ = mt
@@ -579,7 +580,8 @@ func (e *Engine) builtin(fr *frame, ins ssa.Instruction, b *ssa.Builtin, cc *ssa
 		k := e.scalar(args[1]).T
 		mc := e.mapComponents(mt)
 		cur := e.heapGet(heap, mc.present)
-		heap[mc.present.key] = e.sc.define("H_mp", mc.present.sort, sto(cur, m, sto(sel(cur, m), k, "false")))
+		heap[mc.present.key] = e.sc.define("H_mp", mc.present.sort, sto(cur, m, sto(sel(cur, m), k, ite(e.guard, "false", sel(sel(cur, m), k)))))
+		e.dirty[mc.present.key] = true
 		return nil
 	case "min", "max":
 		a, bb := e.scalar(args[0]), e.scalar(args[1])
@@ -619,7 +621,7 @@ func (e *Engine) appendOp(fr *frame, cc *ssa.CallCommon, args []Val, heap Heap) 
 		fail("append of %T", args[1])
 	}
 	ref := e.alloc()
-	newLen := e.sc.define("alen", SI64, app("bvadd", s.Len, t.Len))
+	newLen := e.sc.define("alen", SI64, e.sc.addS(s.Len, t.Len))
 	e.forLeaves(types.NewSlice(st.Elem()), []pathElem{{field: -1}}, st.Elem(), func(path []pathElem, suffix, leaf string, lt types.Type) {
 		c := e.comp(types.NewSlice(st.Elem()), path, suffix, leaf)
 		if c.nidx != 1 {
@@ -628,15 +630,23 @@ func (e *Engine) appendOp(fr *frame, cc *ssa.CallCommon, args []Val, heap Heap) 
 		cur := e.heapGet(heap, c)
 		// new backing array N with: N[i] = S[soff+i] for i<slen ; N[slen+j] = T[toff+j]
 		n := e.sc.declare("apnd_"+c.key, arrSort(SI64, leaf))
-		sarr := sel(cur, s.Arr)
+		sarr := e.sc.selIdx(cur, s.Arr)
 		// concrete small appends (the common case in this code base) are written as stores
 		if cnt, ok := e.smallConst(t.Len); ok && cnt <= 8 && !tIsString {
-			tarr := sel(cur, t.Arr)
+			tarr := e.sc.selIdx(cur, t.Arr)
 			// N = store*(shift(S)) cannot be expressed without lambda; use the quantified characterisation for the prefix
 			// and point stores for the tail
 			e.assumeCopy(n, bvLit(0, 64), sarr, s.Off, s.Len)
 			for j := 0; j < cnt; j++ {
-				e.sc.assume(eq(sel(n, app("bvadd", s.Len, bvLit(uint64(j), 64))), sel(tarr, app("bvadd", t.Off, bvLit(uint64(j), 64)))))
+				di := e.sc.addS(s.Len, bvLit(uint64(j), 64))
+				v := e.sc.selIdx(tarr, e.sc.addS(t.Off, bvLit(uint64(j), 64)))
+				e.sc.assume(eq(sel(n, di), v))
+				if dl, ok := e.sc.lit(di); ok && len(e.sc.binders) == 0 {
+					if e.sc.elemFacts[n] == nil {
+						e.sc.elemFacts[n] = map[string]string{}
+					}
+					e.sc.elemFacts[n][dl] = v
+				}
 			}
 		} else {
 			e.assumeCopy(n, bvLit(0, 64), sarr, s.Off, s.Len)
@@ -667,7 +677,15 @@ func (e *Engine) assumeCopy(dst, dOff, src, sOff, n string) {
 	if cnt, ok := e.smallConst(n); ok && cnt <= 16 {
 		for i := 0; i < cnt; i++ {
 			ii := bvLit(uint64(i), 64)
-			e.sc.assume(eq(sel(dst, app("bvadd", dOff, ii)), sel(src, app("bvadd", sOff, ii))))
+			di := e.sc.addS(dOff, ii)
+			v := e.sc.selIdx(src, e.sc.addS(sOff, ii))
+			e.sc.assume(eq(sel(dst, di), v))
+			if dl, ok := e.sc.lit(di); ok && len(e.sc.binders) == 0 {
+				if e.sc.elemFacts[dst] == nil {
+					e.sc.elemFacts[dst] = map[string]string{}
+				}
+				e.sc.elemFacts[dst][dl] = v
+			}
 		}
 		return
 	}
@@ -716,11 +734,13 @@ func (e *Engine) copyOp(fr *frame, cc *ssa.CallCommon, args []Val, heap Heap) Va
 				jj := bvLit(uint64(j), 64)
 				t = sto(t, app("bvadd", d.Off, jj), sel(src, app("bvadd", sOff, jj)))
 			}
-			heap[c.key] = e.sc.define("H_"+c.key, c.sort, sto(cur, d.Arr, t))
+			heap[c.key] = e.sc.define("H_"+c.key, c.sort, sto(cur, d.Arr, ite(e.guard, t, old)))
+			e.dirty[c.key] = true
 			return
 		}
 		e.sc.add(fmt.Sprintf("(assert (forall ((%s %s)) %s))", i, SI64, body))
-		heap[c.key] = e.sc.define("H_"+c.key, c.sort, sto(cur, d.Arr, nw))
+		heap[c.key] = e.sc.define("H_"+c.key, c.sort, sto(cur, d.Arr, ite(e.guard, nw, old)))
+		e.dirty[c.key] = true
 	})
 	return Sc{n, SI64}
 }
